@@ -109,8 +109,73 @@ def body_loc(b):
     return b.loc()
 
 
+def pp(v, depth=0):
+    """human-readable rendering of a value/term"""
+    if depth > 12:
+        return "..."
+    if isinstance(v, bool) or isinstance(v, int):
+        return hex(v) if isinstance(v, int) and v > 255 else str(v)
+    if isinstance(v, str) or v is None:
+        return str(v)
+    if isinstance(v, Struct):
+        nm = (v.adt or "").split("::")[-1]
+        if v.variant and v.variant != nm:
+            nm = (nm + "::" if nm else "") + v.variant
+        inner = ", ".join("%s: %s" % (k, pp(x, depth + 1)) for k, x in v.fields.items())
+        if v.base is not None:
+            inner += (", " if inner else "") + ".." + pp(v.base, depth + 1)
+        return "%s{%s}" % (nm, inner)
+    if isinstance(v, TupleV):
+        return "(%s)" % ", ".join(pp(x, depth + 1) for x in v.items)
+    if isinstance(v, Ref):
+        return "&<local>"
+    if isinstance(v, ClosureV):
+        return "closure " + v.path.split("::", 1)[-1]
+    if not isinstance(v, tuple) or not v:
+        return repr(v)
+    t = v[0]
+    if t == "param":
+        return v[1]
+    if t == "field":
+        return "%s.%s" % (pp(v[1], depth + 1), v[2])
+    if t == "as":
+        return "%s?%s" % (pp(v[1], depth + 1), v[2])
+    if t == "deref":
+        return "*%s" % pp(v[1], depth + 1)
+    if t == "call" and len(v) >= 4:
+        return "%s(%s)" % (v[1].split("::")[-1].rstrip(">"), ", ".join(pp(a, depth + 1) for a in v[3]))
+    if t == "bufread":
+        return "%s[@%s,%s bytes]" % (pp(v[1], depth + 1), pp(v[2], depth + 1), pp(v[3], depth + 1))
+    if t == "bufslice":
+        return "%s[@%s..+%s]" % (pp(v[1], depth + 1), pp(v[2], depth + 1), pp(v[3], depth + 1))
+    if t == "lin":
+        parts = []
+        for a, k in v[1]:
+            parts.append(("%s" % pp(a, depth + 1)) if k == 1 else ("-%s" % pp(a, depth + 1)) if k == -1 else "%d*%s" % (k, pp(a, depth + 1)))
+        if v[2]:
+            parts.append(str(v[2]))
+        return "(" + " + ".join(parts).replace("+ -", "- ") + ")"
+    if t == "cmp":
+        sym = {"Lt": "<", "Le": "<=", "Gt": ">", "Ge": ">=", "Eq": "==", "Ne": "!="}[v[1]]
+        return "%s %s %s" % (pp(v[2], depth + 1), sym, pp(v[3], depth + 1))
+    if t == "struct":
+        return "%s{%s}" % ((v[2] or v[1] or "").split("::")[-1], ", ".join("%s: %s" % (k, pp(x, depth + 1)) for k, x in v[3]))
+    if t in ("lookup", "stored", "stored_any"):
+        return "%s(%s)" % (t + ":" + str(v[1]) if t == "lookup" else t, ", ".join(pp(x, depth + 1) for x in v[2:] if not isinstance(x, int)))
+    if t == "now":
+        return "now"
+    if t == "str":
+        return repr(v[1])
+    if t == "top":
+        return "?"
+    return "%s(%s)" % (t, ", ".join(pp(x, depth + 1) for x in v[1:]))
+
+
 def short(v, n=160):
-    s = repr(v)
+    try:
+        s = pp(v)
+    except Exception:
+        s = repr(v)
     return s if len(s) <= n else s[: n - 3] + "..."
 
 
